@@ -35,5 +35,11 @@ def run(ck):
         ck.cov["golden_files_checked"] = s.get("cases", 0)
         if rc == 0:
             ck.validate_trace("Trace_Golden", "Trace_Golden.cfg", tr, "golden/grammar-" + fl, n_traces=s.get("cases", 0), n_events=s.get("cases", 0))
+    for fl, b in bins.items():       # big fields (beyond a stream buffer) written to and read from real files
+        tr = ck.path("random-%s.ndjson" % fl)
+        rc, out, err = ck.run([b, "random", cases, str(ck.seed), "60" if ck.quick else "400", tr], timeout=900)
+        s = ck.harness_output("io-random-" + fl, rc, out, err)
+        if rc == 0:
+            ck.validate_trace("Trace_Golden", "Trace_Golden.cfg", tr, "io/random-dumps-" + fl, n_traces=s.get("events", 0), n_events=s.get("events", 0))
     ck.assume("cross-width value comparison only on the finite value sets within float range, as the property states")
     ck.assume("16 of the 20 golden files were written by the pinned revision (byte-identical to the repaired tree); 4 layers cannot be written by it")
